@@ -126,5 +126,5 @@ def ensure_driver(name, flavor, extra_flags=None, extra_srcs=None, plain_c=None)
 SAN_ENV = {
     "ASAN_OPTIONS": "detect_leaks=0:quarantine_size_mb=8:allocator_release_to_os_interval_ms=-1:abort_on_error=0:handle_abort=1",
     "UBSAN_OPTIONS": "print_stacktrace=1:halt_on_error=1",
-    "TSAN_OPTIONS": "halt_on_error=0:report_signal_unsafe=0",
+    "TSAN_OPTIONS": "halt_on_error=0:report_signal_unsafe=0:suppress_equal_stacks=0:suppress_equal_addresses=0:history_size=4",
 }
